@@ -1,4 +1,4 @@
-SPECIFICATION SpecMain
+SPECIFICATION SpecVfork
 CONSTANTS
   BoundedWalk = TRUE
   MaxLinkMaps = 4
